@@ -271,4 +271,26 @@ PROPS = {
                        "not be taken to Verus (u16::from_be_bytes / <[u8]>::try_into have no Verus specification), so the u32 "
                        "accumulator bound for 65535-octet keys is not proved, only checked up to 48 octets.",
     },
+    "C06": {
+        "level": "other",
+        "units": [],
+        "kani": [
+            {"group": "g0", "name": "c06_symbol_octet_roundtrip", "kind": "complete", "tier": "quick", "timeout": 400,
+             "what": "for every octet: Symbol::from_octet -> Display -> Symbol::from_slice_index consumes exactly the written text and "
+                     "yields the octet; the written symbol never ends a word for the zone-file tokenizer (is_word_char)"},
+            {"group": "g0", "name": "c06_label_octet_display_roundtrip", "kind": "complete", "tier": "quick", "timeout": 400,
+             "what": "for every octet as a one-octet label: Display for Label -> reader yields the octet; no unescaped dot and no "
+                     "unescaped character that ends a word (owner names are written with this Display)"},
+        ],
+        "replays": [
+            {"bin": "d8_owner_name_special_chars", "crate": "replay_net", "finding": "D8"},
+        ],
+        "explanation": "per-symbol writer/reader agreement, complete over all octet values (the escaping rules shared by the presentation "
+                       "writer and the zone-file reader are per octet and context-free, so all 256 cases decide this layer); binary "
+                       "fields in Base16/32/64 are decided under C18. One native replay writes and re-reads whole records whose owner "
+                       "contains tokenizer-special characters.",
+        "not_covered": "Record-level agreement (every record type's field order, TTL/class rendering, multi-line and tabbed forms, "
+                       "RFC 3597 generic form, quoted character strings and TXT): needs core::fmt, the Scanner trait-object graph and "
+                       "BytesMut, out of reach of both tools beyond single symbols (CBMC needs 45 s for one symbol through fmt).",
+    },
 }
